@@ -507,6 +507,14 @@ def check_buffer_ops(ctx, tu, sy, f, counts):
     fld = (BUF, 'buffer')
     params = {p['id'] for p in f.get('params', [])[:1]}      # the element (+ helper parameters bound to it)
     hooks = C12Hooks(sy, found, R2, params)
+    # the buffer reached through a pointer (its address handed to a helper object): operations through that pointer are not
+    # seen by the automata below, so nothing can be concluded from their absence
+    for fn_ in inl.reachable_fns(f):
+        for x_ in tu.walk(tu.body(fn_)) if tu.body(fn_) is not None else ():
+            if x_.get('kind') == 'UnaryOperator' and x_.get('opcode') == '&' and 'id' in x_ and tu.kids(x_) and \
+                    sy.field(tu.kids(x_)[0]) == fld:
+                found.und(R2, 'the buffer is reached through a pointer (its address is taken in %s): operations through the pointer '
+                          'are not modelled' % fn_short(fn_), x_)
     inst = '%s %s' % (f['q'].replace('rkcommon::containers::', ''), f['fty'])
     counts[R2] += 1
 
@@ -1174,6 +1182,18 @@ def check_update(ctx, tu, sy, f, counts):
         return [st]
 
     def refine(blk, si, st):
+        term = tu.node(blk.term) if blk.term else None
+        if term is not None and term.get('kind') == 'SwitchStmt' and blk.cond:
+            # switch (<flag>) { case <constant>: ... }: each edge fixes the value the flag was seen with
+            _p, catom = sy.cond_atom(tu.node(blk.cond))
+            cur_g = tu.cfg(inl.stack[-1]) if inl.stack else g
+            tgt = cur_g.blocks.get(blk.succ[si]) if blk.succ[si] is not None else None
+            lab = tu.node(tgt.label) if tgt is not None and tgt.label else None
+            if catom is not None and flag_token(tu, sy, catom, FLAG) and lab is not None and lab.get('kind') == 'CaseStmt' and tu.kids(lab):
+                cv = tu.sd(tu.kids(lab)[0]).get('cv')
+                if cv is not None:
+                    return [st[:2] + (str(cv) != '0',) + st[3:]]
+            return [st]
         atom, truth = sy.edge_truth(blk, si)
         if atom is None:
             return [st]
@@ -1235,6 +1255,10 @@ def check_flag_init(ctx, tu, sy, f, counts):
             if len(lits) == 1:
                 v_ = lits[0].get('value')
                 return bool(v_) if lits[0]['kind'] == 'CXXBoolLiteralExpr' else str(v_) != '0'
+            cvs = [tu.sd(x).get('cv') for x in tu.walk(fd) if 'id' in x and x.get('kind') != 'FieldDecl' and tu.sd(x).get('cv') is not None] \
+                if fd is not None else []
+            if cvs:
+                return str(cvs[0]) != '0'       # an enumerator / constant expression: zero = nothing pending
             return None
         x = tu.strip(init, casts=True)
         while x is not None and x.get('kind') in ('InitListExpr', 'CXXConstructExpr', 'CXXTemporaryObjectExpr'):
@@ -2123,6 +2147,10 @@ def check_indicator_type(ctx, tu, rec, T, r, names, counts):
         ctx.ok(R3, '%s pending indicator' % r['q'].replace('rkcommon::utility::', ''), 'newValue is a %s: raised by the producer, has to be '
                'reset to zero by the consumer (R-C12-3 checks the reset)' % ty, T['file'])
         return
+    if ty.startswith('std::atomic<') and inty not in ('bool',) and tu.records_by_type.get(inty) is None and '*' not in inty:
+        ctx.ok(R3, '%s pending indicator' % r['q'].replace('rkcommon::utility::', ''), 'the indicator is a %s (an enumeration): zero = '
+               'nothing pending; raised by the producer, reset by the consumer (R-C12-3 / R-C12-4 check both)' % ty, T['file'])
+        return
     if ty in ('bool', 'std::atomic<bool>'):
         ctx.ok(R3, '%s pending indicator' % r['q'].replace('rkcommon::utility::', ''), 'newValue is a %s set by the producer and cleared '
                'by the consumer' % ty, T['file'])
@@ -2247,6 +2275,19 @@ def check_tu(ctx, tu, counts):
                 check_lockfree_value(ctx, tu, sy, rec, T, r, names, counts)
                 okrec = False
                 continue
+            if rec == VAL and want - set(names) == {'newValue'}:
+                # the flag under another name / type: the one atomic member besides the anchored ones (two-state enum, int, bool),
+                # unless the pending test is a recognised-wrong comparison of counters
+                cand = [n_ for n_, ct_ in names.items() if n_ not in want and ct_.startswith('std::atomic<')]
+                plain_ints = [n_ for n_, ct_ in names.items() if n_ not in want and not ct_.startswith('std::atomic<') and
+                              ct_ in ('unsigned char', 'unsigned short', 'unsigned int', 'unsigned long', 'int', 'short', 'long')]
+                if len(cand) == 1 and not plain_ints:
+                    sy.field_map[(VAL, cand[0])] = (VAL, 'newValue')
+                    tu.__dict__.setdefault('_c12_names', {})[cand[0]] = 'newValue'
+                    if 'newValue' not in names:
+                        ctx.note('%s: the pending indicator is the atomic member %s (%s)' % (T['short'], cand[0], names[cand[0]]))
+                    names = dict(names, newValue=names[cand[0]])
+                    tu.__dict__['_c12_flagname'] = cand[0]
             if not want <= set(names):
                 if rec == VAL and want - set(names) == {'newValue'} and check_counter_indicator(ctx, tu, sy, rec, T, [r]):
                     # the flag was replaced by a recognised-wrong pending test: reported; the other rules need the flag
@@ -2262,7 +2303,8 @@ def check_tu(ctx, tu, counts):
             if rec == VAL:
                 check_indicator_type(ctx, tu, rec, T, r, names, counts)
             for extra in sorted(set(names) - want):
-                if rec == VAL and (extra == dbv_member(tu) or extra == tu.__dict__.get('_c12_holder')):
+                if rec == VAL and (extra == dbv_member(tu) or extra == tu.__dict__.get('_c12_holder') or
+                                   extra == tu.__dict__.get('_c12_flagname')):
                     continue
                 if is_atomic_type(names[extra]) and atomic_mirror(tu, sy, rec, T, extra):
                     # contradiction rule: the code itself writes this atomic under the mutex somewhere, i.e. it mirrors guarded
